@@ -46,6 +46,8 @@ def one(sid):
 
 with ThreadPoolExecutor(int(os.environ.get("SM_PAR", "3"))) as ex:
     for sid, out in ex.map(one, ids):
-        results.setdefault(sid, {}).update(out)
         print(sid, json.dumps(out)[:300], flush=True)
+        # merge with whatever other runs wrote meanwhile
+        results = json.load(open(resf)) if os.path.exists(resf) else {}
+        results.setdefault(sid, {}).update(out)
         json.dump(results, open(resf, "w"), indent=1, sort_keys=True)
